@@ -88,6 +88,7 @@ type Exec struct {
 	Obs       []string
 	// faultable store calls made by the last primary public call
 	targetFCalls, lastTargetFCalls int
+	targetKinds                    []wrap.Kind
 	// Acks is called after every completed op (worker mode).
 	Acks func(i int)
 }
@@ -542,7 +543,11 @@ func (e *Exec) compareAll(target string, targetProps []string, what string) {
 			case name == target:
 				e.fail(targetProps, "state-divergence", fmt.Sprintf("after %s: collection %q differs from the model: %s", what, name, diff), feats)
 			default:
-				e.fail([]string{"C13", "C12"}, "C13/isolation", fmt.Sprintf("after %s on %q: OTHER collection %q changed: %s", what, target, name, diff), feats)
+				props := []string{"C13", "C12"}
+				if e.cur != nil && (e.cur.K == "DropCollection" || e.cur.K == "DropIndex") {
+					props = append(props, "C06") // a drop must never disturb another collection or index
+				}
+				e.fail(props, "C13/isolation", fmt.Sprintf("after %s on %q: OTHER collection %q changed: %s", what, target, name, diff), feats)
 			}
 			return
 		}
